@@ -126,7 +126,7 @@ class CellResolutionAttribute:
 
       m = CellResolutionAttribute._CELL_RESOLUTION_RE.fullmatch(cr)
 
-      if m is not None:
+      if m is not None and int(m.group(1)) > 0 and int(m.group(2)) > 0:
 
         return model.CellResolutionType(columns=int(m.group(1)), rows=int(m.group(2)))
 
